@@ -318,6 +318,12 @@ def c01_roundtrip(w, ev, slot):
             continue
         _cmp_loaded(w, t2, ref, meta, 'c01.roundtrip', what)
         loaded_tables.append(t2)
+    # all but the table that may join the pool are the caller's to edit
+    pick = ev.get('b', 0) % len(loaded_tables) if loaded_tables else 0
+    from .probes_text import _scribble
+    for k, t2 in enumerate(loaded_tables):
+        if k != pick:
+            _scribble(t2)
     os.unlink(path)
     if loaded_tables and (ev.get('c', 0) % 2 or (ev.get('c', 0) >> 6) & 1):
         t2 = loaded_tables[ev.get('b', 0) % len(loaded_tables)]
@@ -508,6 +514,11 @@ def _drop_empty_other(exp, ax):
 
 
 def _cmp_subset(w, got_table, exp, what, md=True, check_type=True):
+    msg = coherence(got_table, w.absent_id())
+    if msg:
+        # the table read is what "read everything, then filter" gives also
+        # in what its id lookups answer
+        w.fail('c14.subset.incoherent', '%s: %s' % (what, msg))
     s = Snap(got_table)
     e = exp.copy()
     if not md:
